@@ -320,6 +320,19 @@ func (r *vC18Run) stop(n *vC18Node) {
 	}
 	srv := n.srv
 	done := make(chan struct{})
+	// raftNode.shutdown() closes the log store without waiting for Raft's own
+	// goroutines (the Shutdown future is not awaited): stopping a node whose leader
+	// loop is still committing panics inside hashicorp/raft ("database not open").
+	// That shutdown race is outside C18 - stop only a Raft node that is idle.
+	if rn := srv.getRaft(); rn != nil {
+		for end := time.Now().Add(2 * time.Second); time.Now().Before(end); {
+			if rn.AppliedIndex() >= rn.LastIndex() && rn.getCommitIndex() >= rn.LastIndex() {
+				break
+			}
+			time.Sleep(time.Millisecond)
+		}
+		time.Sleep(5 * time.Millisecond)
+	}
 	// The gate stays closed until the server is shut down: a dispatcher that is
 	// parked (or arrives) between publish and record then runs into the stopped
 	// Raft node - the record is lost, as in a crash at that point.
@@ -393,6 +406,10 @@ func (r *vC18Run) readPub(n *vC18Node) {
 	if p == nil || p.log == nil {
 		return
 	}
+	// what was written is committed a moment later: read a settled stream
+	for end := time.Now().Add(2 * time.Second); p.log.HighWatermark() < p.log.NewestOffset() && time.Now().Before(end); {
+		time.Sleep(200 * time.Microsecond)
+	}
 	hw := p.log.HighWatermark()
 	if hw < 0 || hw < int64(len(r.pub))-1 {
 		return
@@ -430,12 +447,14 @@ func (r *vC18Run) state(focus *vC18Node) vC18State {
 		n = r.anyUp()
 	}
 	if n != nil && n.srv != nil {
+		// the flags first: a dispatcher seen parked has published, so the stream
+		// read afterwards contains its event (the observation is not atomic)
+		st.Parked = n.gate.isParked()
+		st.Lp = int64(n.srv.activity.LastPublishedRaftIndex())
 		r.readRaftLog(n)
 		r.readPub(n)
 		st.Up = true
-		st.Lp = int64(n.srv.activity.LastPublishedRaftIndex())
 		st.Leader = n.srv.getRaft() != nil && n.srv.IsLeader()
-		st.Parked = n.gate.isParked()
 		st.Blocked = n.blocked
 		st.PubFails = atomic.LoadInt64(&n.pubFails)
 		st.RecFails = atomic.LoadInt64(&n.recFails)
@@ -527,7 +546,12 @@ func (r *vC18Run) step(step map[string]interface{}) (ev vC18Event) {
 		n := r.node(step)
 		focus = n
 		vC18Wait("raft leadership of "+n.id, func() bool {
-			return n.srv != nil && n.srv.IsRunning() && n.srv.getRaft() != nil && n.srv.getRaft().State() == raft.Leader
+			if !(n.srv != nil && n.srv.IsRunning() && n.srv.getRaft() != nil && n.srv.getRaft().State() == raft.Leader) {
+				return false
+			}
+			// the new leader's no-op entry is committed (the election is visible in the committed log)
+			rn := n.srv.getRaft()
+			return rn.getCommitIndex() > uint64(len(r.rlog)) && rn.getCommitIndex() >= rn.LastIndex()-2
 		})
 	case "BecomeLeader":
 		n := r.node(step)
